@@ -307,6 +307,36 @@ def window_writers(cx):
         a = call_args(cx, c)[1]
         cx.check(any(x[0] == "field" and x[2] == "Inflights.start" for x in walk(a)) and any(x[0] == "field" and x[2] == "Inflights.buffer" for x in walk(a)), "free_first_one:arg", "free_first_one() passes buffer[start] (found %s)" % show(a)[:80], c)
     cx.check(n >= 4, "floor", "window writers were found")
+    # a ring that is thrown away restarts at slot 0: wherever `buffer` is replaced by a new vector, `start := 0` lies on
+    # every path through that write (before or after it) -- except the first allocation of a ring that has no storage
+    # yet (`buffer.capacity() == 0`), whose start is 0 by this very rule
+    nb = 0
+    for s in cx.prog.writes.get("Inflights.buffer", []):
+        if s.fn.impl_trait or "stmt" not in s.data or s.fn.name == "new" or s.fn.name == "with_capacity":
+            continue
+        if s.data["stmt"]["place"]["p"] and any(isinstance(p_, dict) and "index" in p_ or isinstance(p_, dict) and "cindex" in p_ for p_ in s.data["stmt"]["place"]["p"]):
+            continue   # an element store, not a replacement of the ring
+        g = cx.pg(s.fn)
+        zero = {w.block for w in cx.prog.writes.get("Inflights.start", []) if w.fn is s.fn and "stmt" in w.data and write_value(cx, w) == ("int", 0)}
+        unalloc = any(l[0] in ("in", "is") and "capacity" in show(l[1]) and contains(fld("Inflights.buffer"), l[1]) for l in cx.guard_lits(s))
+        before = bool(zero) and g.dominated_by_block(s.at, lambda b: b in zero)
+        after = bool(zero)
+        if after and not before:
+            seen, work = set(), list(g.by_block.get(s.block, []))
+            while work and after:
+                n_ = work.pop()
+                if n_ in seen:
+                    continue
+                seen.add(n_)
+                bi = g.nodes[n_][0]
+                if bi in zero:
+                    continue
+                if s.fn.body.blocks[bi]["term"]["k"] == "return":
+                    after = False
+                work += [m for m, _ in g.edges[n_] or []]
+        nb += 1
+        cx.check(unalloc or before or after, cx.site_key(s, "ring-restart"), "replacing the ring buffer rewinds `start` to 0 in the same step (%s)" % fn_name(s.fn), s)
+    cx.check(nb >= 3, "ring-restart:floor", "the sites replacing the ring buffer were found")
 
 
 @obligation("FLOW.resume_sources", ["C13"], floor=3, kind="who-may-call + guard",
